@@ -287,6 +287,8 @@ def oracle_c05(rows):
                     reserved[(new[0]["parent"], new[0]["id"])] = {
                         "before": sv_map(prev), "ins": s["extra"].get("ctx_inputs") or [], "refreshed": False,
                         "keys_before": set(sv_map(prev))}
+            if k == "restore":
+                reserved = {}   # a new database: log ids start again
             if k in ("refresh", "init_send", "process_invoice", "update_state", "scan", "restore"):   # every operation that refreshes first
                 for v in reserved.values():
                     v["refreshed"] = True
